@@ -213,6 +213,7 @@ func (m *mem) gc(cur, prev time.Time) error {
 		repoNames = append(repoNames, r)
 	}
 	m.mu.Unlock()
+	errs := []error{}
 	for _, r := range repoNames {
 		// if stop ch was closed, exit immediately
 		select {
@@ -233,12 +234,13 @@ func (m *mem) gc(cur, prev time.Time) error {
 		if outsideRange {
 			continue
 		}
+		// a failing repo does not prevent the GC of the remaining repos
 		err := repo.gc()
 		if err != nil {
-			return err
+			errs = append(errs, err)
 		}
 	}
-	return nil
+	return errors.Join(errs...)
 }
 
 // IndexGet returns the current top level index for a repo.
